@@ -32,12 +32,13 @@ def op_of(line):
     return line.split(" ", 1)[0] if line else ""
 
 
-def analyse(ctx, lines, tr, ok_drv, prop, relevant_ops=None, oracle_props=None, status_filter=None):
+def analyse(ctx, lines, tr, ok_drv, prop, relevant_ops=None, oracle_props=None, status_filter=None, always_ops=()):
     """Feeds the trace to the Lean driver and turns what it and the harness' own oracles report
     into violations of `prop`.
       relevant_ops: operations whose reply mismatches count for this property (None = all)
       oracle_props: ORACLE lines of these properties count (default [prop])
-      status_filter: function(mismatch_text) -> bool to narrow mismatches further"""
+      status_filter: function(mismatch_text) -> bool to narrow mismatches further
+      always_ops: operations whose reply mismatches count whatever status_filter says"""
     ops = [l for l in lines if l and not l.startswith("#") and not l.startswith("config")]
     ctx.cov["evaluations"] += len(ops)
     ctx.cov["distinct_nontrivial"] += len(set(ops))
@@ -77,7 +78,7 @@ def analyse(ctx, lines, tr, ok_drv, prop, relevant_ops=None, oracle_props=None, 
         op = op_of(line)
         if relevant_ops is not None and op not in relevant_ops:
             continue
-        if status_filter is not None and not status_filter(parts[0]):
+        if status_filter is not None and not status_filter(parts[0]) and op not in always_ops:
             continue
         rel.append((op, parts[0], line))
     if mism:
@@ -105,3 +106,24 @@ def context_before(lines, target, n=40, contains=False):
     if len(seq) > n:
         seq = seq[:1] + ["... (%d operations omitted; re-run with the same VERIF_SEED for the full trace)" % (len(seq) - n)] + seq[-n + 1:]
     return seq
+
+
+def flush_callers(ctx):
+    """Concrete call sites: the functions of /repo that call Flush() (regenerated list Gen/Skeleton.flushCallers)."""
+    f = os.path.join(ctx.scratch, "flush.lean")
+    open(f, "w").write("import GoNfsd.Gen.Skeleton\n#eval GoNfsd.Gen.Skeleton.flushCallers\n")
+    rc, out = vlib.run(["lake", "build", "GoNfsd.Gen.Skeleton"], cwd=vlib.LEAN, timeout=600)
+    if rc != 0:
+        return []
+    rc, out = vlib.run(["lake", "env", "lean", f], cwd=vlib.LEAN, timeout=600)
+    return re.findall(r'"([A-Za-z0-9_.]+)"', out)
+
+
+def report_flush_callers(ctx):
+    if any(b.kind == "proof" for b in ctx.breaks):
+        for fn in flush_callers(ctx)[:3]:
+            ctx.add_violation("relies-on-remembered-log-position:" + fn,
+                              "%s calls Flush(), which waits for the log position the journal remembers from the last commit — 0 after a transaction it refused" % fn,
+                              {"input": {"function": fn, "history": "unstable (or not yet flushed) commit; a request whose transaction does not fit into the log (SYMLINK with a 600-block target: "
+                                                                     "NFS3ERR_SERVERFAULT), from any client, between that commit and the Flush(); crash"},
+                               "how": "regenerated list Gen/Skeleton.flushCallers (theorem nobody_relies_on_the_remembered_position); model M9c: flush_forgets_after_a_refusal"})
